@@ -3,6 +3,7 @@ import TonicModel.Spec.Status
 import TonicModel.Lemmas.Status
 import TonicModel.Lemmas.FramingHttp
 import TonicModel.Model.FramingAsFound
+import TonicModel.Model.StatusClient
 /-
 C04 — Status survives the header encoding; reading any headers is total.
 Property theorems only; helper lemmas live in `Lemmas/Status.lean` and `Basic/*`.
@@ -468,6 +469,114 @@ theorem C04_cancel_reset (c : Code) :
     (toH2 c = 8 ↔ c = .cancelled) ∧ codeFromH2 .fixed (toH2 .cancelled) = .cancelled := by
   cases c <;> decide
 
+/-! ## the layers around the codec (audit aC04): the client's first look at a response, the
+server's two ways of writing a failure, a finished stream polled again -/
+
+/-- **A client reads the status of a trailers-only response out of the response headers, and
+exactly as the spec reads that block.** For every HTTP status and every header block:
+no `grpc-status` in the headers — the body becomes the response stream that is classified at its
+end (by its trailers, else by the HTTP status: `C04_infer`, `C04_http_table_any_body`); a
+`grpc-status` there that reads as a non-OK status — the call fails at once with the spec's
+reading of the block (code, message, details), whatever the HTTP status; an undecodable field —
+it fails with a non-OK status; and only a well-formed OK lets the call go on. -/
+theorem C04_client_header_status (http : Nat) (h : HMap) :
+    match Spec.Status.read h, createResponse .fixed http h with
+    | none, .stream d => d = .response http
+    | some r, .fail st =>
+        st.code ≠ .ok ∧ st.metadata = stripStatus h ∧
+        (∀ m d, r.message = some m → r.details = some d →
+          st.code.num = r.code ∧ st.message = m ∧ st.details = d)
+    | some r, .stream d => d = .empty ∧ r.code = Spec.Status.OK ∧ r.message.isSome ∧ r.details.isSome
+    | _, _ => False := by
+  have hs := C04_read_is_spec h
+  unfold createResponse
+  cases hr : Spec.Status.read h with
+  | none =>
+    rw [hr] at hs
+    cases hf : fromHeaderMap .fixed h with
+    | none => simp
+    | some o => rw [hf] at hs; cases o <;> simp at hs
+  | some r =>
+    rw [hr] at hs
+    cases hf : fromHeaderMap .fixed h with
+    | none => rw [hf] at hs; simp at hs
+    | some o =>
+      rw [hf] at hs
+      cases o with
+      | panic => simp at hs
+      | status st =>
+        obtain ⟨hmd, hdec, hund⟩ := hs
+        by_cases hok : st.code = .ok
+        · simp only [hok, if_true]
+          refine ⟨trivial, ?_⟩
+          cases hm : r.message with
+          | none => have := hund (Or.inl hm); rw [hok] at this; cases this
+          | some m =>
+            cases hd : r.details with
+            | none => have := hund (Or.inr hd); rw [hok] at this; cases this
+            | some d =>
+              have := (hdec m d hm hd).1
+              rw [hok] at this
+              exact ⟨this.symm, rfl, rfl⟩
+        · simp only [hok, if_false]
+          exact ⟨hok, hmd, hdec⟩
+
+/-- **Both ways a server writes a failed call are read back by a client as the same status.**
+For every status with a code other than OK (any valid-UTF-8 message, any details, any metadata):
+written by `Status::into_http` into a trailers-only response, the client's `create_response`
+fails the call with exactly that code, message and details, whatever the HTTP status; and written
+by `Status::to_header_map` into the trailers of a response body (`EncodeBody`), the end of the
+response stream (`infer_grpc_status`) is exactly that error, whatever the HTTP status. -/
+theorem C04_server_failure_reaches_client (st : St) (http : Nat) (hutf : Utf8.valid st.message = true)
+    (hne : st.code ≠ .ok) :
+    (∃ h, addHeader .fixed st [(CONTENT_TYPE, HMap.name "application/grpc")] = .ok h ∧
+      createResponse .fixed http h = .fail
+        { code := st.code, message := st.message, details := st.details, metadata := stripStatus h }) ∧
+    (∃ t, toHeaderMap .fixed st = .ok t ∧
+      inferGrpcStatus .fixed (some t) http = .err
+        { code := st.code, message := st.message, details := st.details, metadata := stripStatus t }) := by
+  constructor
+  · obtain ⟨h, hw, hr, _⟩ := C04_status_roundtrip st [(CONTENT_TYPE, HMap.name "application/grpc")] hutf (by decide) (by decide)
+    refine ⟨h, hw, ?_⟩
+    unfold createResponse
+    rw [hr]
+    simp [hne]
+  · obtain ⟨t, hw, hr, _⟩ := C04_status_roundtrip st [] hutf (by decide) (by decide)
+    refine ⟨t, hw, ?_⟩
+    have := (C04_infer (some t) http).2 t _ rfl hr
+    rw [this]
+    simp [hne]
+
+/-- Target: *a stream that has ended stays ended* — polled again after `message()` said `None`
+and `trailers()` handed out the trailers, it says `None` again (the documentation of
+`Streaming::message` promises it).  **False of the code as it is** (finding C04-F2): a response
+whose HTTP status is not 200 and whose trailers carry `grpc-status: 0` ends cleanly, but once
+`trailers()` has taken the trailers the next poll classifies the response by its HTTP status
+alone and fails, e.g. with UNAVAILABLE for a 503. -/
+theorem C04_ended_stream_stays_ended_fails :
+    ¬ ∀ dir, repollAfterTrailersTaken dir = none := by
+  intro h
+  have := h (.response 503)
+  revert this
+  decide
+
+/-- … and it holds exactly when the response's HTTP status is 200 (and for request streams and
+the `new_empty` streams of trailers-only responses). -/
+theorem C04_ended_stream_stays_ended_partial (dir : Framing.Dir) :
+    repollAfterTrailersTaken dir = none ↔ dir ≠ .response 200 → ∀ http, dir ≠ .response http := by
+  cases dir with
+  | request => simp [repollAfterTrailersTaken, Framing.Dec.response]
+  | empty => simp [repollAfterTrailersTaken, Framing.Dec.response]
+  | response http =>
+    simp only [repollAfterTrailersTaken, Framing.Dec.response, Framing.inferStatus]
+    by_cases h200 : http = 200
+    · subst h200; simp
+    · simp only [h200, if_false]
+      constructor
+      · intro h; repeat (split at h <;> try cases h)
+      · intro h
+        exact absurd rfl (h (by simpa using h200) http)
+
 /-! ## non-vacuity -/
 
 /- a status with controls, `%`, non-ASCII text, details of length 2 (mod 3) and repeated and
@@ -477,6 +586,17 @@ private def exSt : St :=
     metadata := [(HMap.name "x-a", [49]), (HMap.name "te", [120]), (HMap.name "x-a", [50])] }
 
 example : Utf8.valid exSt.message = true := by decide
+
+/- … the hypotheses of `C04_server_failure_reaches_client` are met by it, and the three outcomes of
+`create_response` all occur: a 503 whose headers carry a status fails with that status, OK in the
+headers gives the unclassified `new_empty` stream, no status gives the stream classified at its end -/
+example : exSt.code ≠ .ok := by decide
+example : createResponse .fixed 503 [(GRPC_STATUS, [55]), (GRPC_STATUS_DETAILS, HMap.name "QUI=")] =
+    .fail { code := .permissionDenied, message := [], details := [65, 66], metadata := [] } := by decide +kernel
+example : createResponse .fixed 200 [(GRPC_STATUS, [48])] = .stream .empty ∧
+    createResponse .fixed 404 [(CONTENT_TYPE, HMap.name "text/html")] = .stream (.response 404) := by decide
+example : repollAfterTrailersTaken (.response 503) = some ⟨14, .http⟩ ∧
+    repollAfterTrailersTaken (.response 200) = none := by decide
 /- … and its wire form is what the theorems say -/
 example : (toHeaderMap .fixed exSt).toOption = some
     [(HMap.name "x-a", [49]), (HMap.name "x-a", [50]), (GRPC_STATUS, [49, 53]),
